@@ -579,6 +579,19 @@ def explore_c19(rng, tier, res, deep=False):
             q2 = q2 + rng.choice(["\n]", "\n x", "\n\n.", " \n"])
         qs.add(q2)
     qs = sorted(qs)
+    # the same literal / name / number texts compiled before at OTHER offsets (valid queries, long prefixes, other
+    # lines), then rejected queries in which those texts sit where they are not allowed: a position reported for an
+    # error must be a position in the query being compiled, whatever the environment has compiled before
+    lits = ["'x'", '"ok"', "'a.*'", "'b'", "1", "1.5", "true", "null", "'\u00e9'", "'a b'"]
+    for lit in lits:
+        for valid in (f"$.some.long.path.to.items[?@.category.name == {lit}]", f"$[?@.a == {lit}]", f"$\n\n[?match(@.a, {lit})\n|| @.b == {lit}]"):
+            try:
+                env.compile(valid)
+            except jp.JSONPathError:
+                pass
+    for lit in lits:
+        qs += [f"$[?{lit}]", f"$[?!{lit}]", f"$[?@.a\n  &&\n  {lit}]", f"$[\r\n?\n!{lit}\n]", f"$[?{lit} || @.a]", f"$[?({lit})]",
+               f"$[?@.a == {lit} {lit}]", f"$[{lit}, ?{lit}]", f"$[?count({lit})]", f"$.a[?{lit}][?{lit} == {lit}"]
     lines = []
     recs = []
     for q in qs:
